@@ -535,6 +535,56 @@ def _zero_const(o):
     return bool(re.match(r"^(const )?-?0(\.0+)?(_?(f64|f32|u64|i64|u32|i32|usize|isize|u8|i8|u16|i16))?$", c)) or o.get("v") == "0"
 
 
+def forever_sites(b):
+    """[(block, ctor name, [parse blocks], reachable_without_nonzero_test, witness)] for every Duration
+    built in b from a number parsed in b"""
+    import boolpath
+    out = []
+    parses = {i for i, t in b.calls() if _PARSE_NUM.search(t["f"] or "")}
+    if not parses:
+        return out
+    for i, t in b.calls():
+        if not _DUR_CTOR.match(t["f"] or "") or b.bbs[i]["cleanup"] or not t["a"] or op_is_const(t["a"][0]):
+            continue
+        P = prov.operand_origins(b, t["a"][0], deep=True)
+        src = {r[2] for r in P.roots if r[0] == "call" and r[2] in parses}
+        if not src:
+            continue
+
+        def from_src(o, src=src):
+            if op_is_const(o):
+                return False
+            Q = prov.operand_origins(b, o, deep=True)
+            return any(r[0] == "call" and r[2] in src for r in Q.roots)
+
+        class Z(boolpath.Spec):
+            def stmt(self, b_, bbi, st):
+                r = st["r"]
+                if r["k"] != "bin" or r.get("op") not in ("Eq", "Ne", "Gt", "Lt", "Le", "Ge"):
+                    return None
+                a_, c_ = r["a"], r["b"]
+                op = r["op"]
+                if _zero_const(a_) and from_src(c_):
+                    a_, c_ = c_, a_
+                    op = {"Gt": "Lt", "Lt": "Gt", "Le": "Ge", "Ge": "Le"}.get(op, op)
+                elif not (_zero_const(c_) and from_src(a_)):
+                    return None
+                # x OP 0
+                return {"Eq": boolpath.N, "Ne": boolpath.A, "Gt": boolpath.A, "Le": boolpath.N}.get(op)
+
+            def edges(self, b_, bbi, tt):
+                if op_is_const(tt["d"]) or not from_src(tt["d"]) or tt.get("dty") in ("bool", "isize"):
+                    return ()
+                ts = dict(tt["ts"])
+                if 0 not in ts:
+                    return ()
+                return tuple(x for x in [v for k_, v in tt["ts"] if k_ != 0] + [tt["o"]] if x != ts[0])
+        ex = boolpath.explore(b, Z(), starts=[b.term(s)["t"] for s in src if b.term(s)["t"] >= 0])
+        bad = i in ex.reached
+        out.append((i, t["f"].split("::")[-1], sorted(src), bad, ex.witness(b, i) if bad else []))
+    return out
+
+
 def rule_forever(ctx, R):
     """`never, when it asked to wait forever`: a timeout of zero -- in every spelling the parser
     accepts -- means no deadline.  In the functions behind BLPOP/BRPOP every Duration built from
@@ -554,54 +604,15 @@ def rule_forever(ctx, R):
         b = ctx.prog.bodies.get(fn)
         if b is None or not fn.startswith("network::") or "::tests::" in fn:
             continue
-        parses = {i for i, t in b.calls() if _PARSE_NUM.search(t["f"] or "")}
-        if not parses:
-            continue
-        for i, t in b.calls():
-            if not _DUR_CTOR.match(t["f"] or "") or b.bbs[i]["cleanup"] or not t["a"] or op_is_const(t["a"][0]):
-                continue
-            P = prov.operand_origins(b, t["a"][0], deep=True)
-            src = {r[2] for r in P.roots if r[0] == "call" and r[2] in parses}
-            if not src:
-                continue
+        try:
+            sites = forever_sites(b)
+        except boolpath.TooManyStates as e:
+            R.broken.append(str(e)); continue
+        for i, nm, src, bad, wit in sites:
             n += 1
-
-            def from_src(o):
-                if op_is_const(o):
-                    return False
-                Q = prov.operand_origins(b, o, deep=True)
-                return any(r[0] == "call" and r[2] in src for r in Q.roots)
-
-            class Z(boolpath.Spec):
-                def stmt(self, b_, bbi, st):
-                    r = st["r"]
-                    if r["k"] != "bin" or r.get("op") not in ("Eq", "Ne", "Gt", "Lt", "Le", "Ge"):
-                        return None
-                    a_, c_ = r["a"], r["b"]
-                    op = r["op"]
-                    if _zero_const(a_) and from_src(c_):
-                        a_, c_ = c_, a_
-                        op = {"Gt": "Lt", "Lt": "Gt", "Le": "Ge", "Ge": "Le"}.get(op, op)
-                    elif not (_zero_const(c_) and from_src(a_)):
-                        return None
-                    # x OP 0
-                    return {"Eq": boolpath.N, "Ne": boolpath.A, "Gt": boolpath.A, "Le": boolpath.N}.get(op)
-
-                def edges(self, b_, bbi, tt):
-                    if op_is_const(tt["d"]) or not from_src(tt["d"]) or tt.get("dty") in ("bool", "isize"):
-                        return ()
-                    ts = dict(tt["ts"])
-                    if 0 not in ts:
-                        return ()
-                    return tuple(x for x in [v for k_, v in tt["ts"] if k_ != 0] + [tt["o"]] if x != ts[0])
-            try:
-                ex = boolpath.explore(b, Z(), starts=[b.term(s)["t"] for s in src if b.term(s)["t"] >= 0])
-            except boolpath.TooManyStates as e:
-                R.broken.append(str(e)); continue
-            bad = i in ex.reached
-            R.inst(fn, "timeout-duration:%s" % t["f"].split("::")[-1], {"function": fn, "at": b.loc(i), "parsed_at": [b.loc(s) for s in sorted(src)], "reachable_without_a_nonzero_test": bad})
+            R.inst(fn, "timeout-duration:%s" % nm, {"function": fn, "at": b.loc(i), "parsed_at": [b.loc(s) for s in src], "reachable_without_a_nonzero_test": bad})
             if bad:
-                R.finding(fn, "timeout-duration:%s:zero-not-excluded" % t["f"].split("::")[-1],
+                R.finding(fn, "timeout-duration:%s:zero-not-excluded" % nm,
                           "%s turns the client's parsed timeout into a Duration (line %d) on a path with no test that the number is not zero: a spelling of zero that takes this path (0.0, 0e0, -0) becomes a deadline of `now` instead of `wait forever`, and the blocked client is answered nil by the next timeout scan" % (fn.split("::")[-1], b.bb_line(i)),
-                          b.loc(i), ["bb%d line %d" % (x, b.bb_line(x)) for x in ex.witness(b, i)][-8:])
+                          b.loc(i), ["bb%d line %d" % (x, b.bb_line(x)) for x in wit][-8:])
     R.floor("timeout_duration_constructions", n)
